@@ -47,4 +47,32 @@ def RowOk (r : Row) : Bool :=
 
 def TableOk (t : List Row) : Bool := t.all RowOk
 
+/-! ### What the caller gets back
+
+`Out.delegated` records which function was called with what; it carries no result.
+`result` adds the results, for arbitrary argument values (`env`) and an arbitrary
+behaviour of the user's functions (`user field args`): the user's results come
+back untouched exactly when the translator found the guarded branch to be the
+single statement `return f.<Field>(ctx, args…)` (`returnsCallVerbatim`) and the
+field declared with the method's own parameter and result types (`signatureSame`,
+so that neither the call nor the `return` converts anything); otherwise the model
+does not say what is returned. -/
+
+inductive Result (ρ : Type) where
+  /-- exactly the values the user's function returned -/
+  | user (v : ρ)
+  /-- the error constructor's error, as in `Out.unset` -/
+  | error (errName errRepo : String) (custom : Bool) (shape : String)
+  /-- delegated, but the source does not have the shape that passes results on -/
+  | unknown
+  | panic (site : String)
+  deriving Repr, DecidableEq
+
+def result {α ρ : Type} (user : String → List α → ρ) (env : String → α) (c : Cfg) (r : Row) : Result ρ :=
+  match call c r with
+  | .delegated f args =>
+    if r.returnsCallVerbatim && r.signatureSame then .user (user f (args.map env)) else .unknown
+  | .unset n rp cu sh => .error n rp cu sh
+  | .panic s => .panic s
+
 end OciModel.Funcs
